@@ -294,6 +294,8 @@ class Parser:
         # block-like expression statements need no semicolon
         if e[0] in ('if', 'match', 'block', 'unsafe', 'while', 'for', 'loop', 'iflet'):
             return ('stmt', e, ln, attrs)
+        if e[0] == 'macro' and getattr(self, 'last_macro_brace', False):
+            return ('stmt', e, ln, attrs)
         raise Unsupported("line %s: expected ';' or '}' after statement, got %r" % (self.line(), self.peek()[1]))
 
     BLOCKLIKE = ('if', 'match', 'unsafe', 'while', 'for', 'loop')
@@ -562,6 +564,7 @@ class Parser:
                 else:
                     name += '::' + self.eat()[1]
             if name.endswith('!'):
+                self.last_macro_brace = self.isop('{')
                 raw = self.raw_group()
                 return ('macro', name[:-1], raw, ln)
             if self.isop('{') and not nostruct and name[:1].isupper():
